@@ -339,6 +339,12 @@ def concrete_faults(run, t):
             ("binary_is_directory", rp, unread, InputFileType.binary),
             ("missing_macro_file", rp, ap, "macros"),
         ]
+        # a missing file whose (legal) name contains characters that shells / glob / expanduser / expandvars treat specially
+        for odd in ("fw_dump[1]", "dump_*", "bios (v2)?", "~nobody", "$HOME", "%TEMP%", "{a,b}", "a b"):
+            tag = "".join(c if c.isalnum() else "_" for c in odd)
+            cases.append((f"missing_assembly_file_odd_name/{tag}", rp, os.path.join(d, odd + ".s"), InputFileType.assembly))
+            cases.append((f"missing_pattern_file_odd_name/{tag}", os.path.join(d, odd + ".yaml"), ap, InputFileType.assembly))
+            cases.append((f"missing_binary_file_odd_name/{tag}", rp, os.path.join(d, odd + ".bin"), InputFileType.binary))
         for name, rule, inp, ftype in cases:
             for ret in (MatchingReturnMode.bool, MatchingReturnMode.matched_addrs_list):
                 n += 1
